@@ -4,7 +4,7 @@ import re
 import common
 from common import cq_bytes, cq_list
 
-THEOREMS = ["c05_history_independent", "c05_repeat_same", "c05_ku_eku_table_order", "c05_ku_eku_order", "c05_ku_eku_two", "c05_crl_subscriber_limit", "c05_crl_ca_limit", "c05_civil_date"]
+THEOREMS = ["c05_history_independent", "c05_repeat_same", "c05_ku_eku_table_order", "c05_ku_eku_order", "c05_ku_eku_two", "c05_crl_subscriber_limit", "c05_crl_ca_limit", "c05_civil_date", "c05_dsa_subgroup_residue", "c05_dsa_write_would_show", "c05_validity_825_days", "c05_validity_months", "c05_validity_398_397"]
 
 # allow-lists that are part of the design (DESIGN.md 5/C05)
 ALLOW_CALLS = [("w_sub_cert_aia_contains_internal_names", "time.Now"), ("w_smime_aia_contains_internal_names", "time.Now")]
